@@ -764,7 +764,8 @@ Definition consts_tied_statement : Prop :=
   /\ policy_of_name go_DialerSelectionPolicy_Fixed = Some PFixed
   /\ policy_of_name go_DialerSelectionPolicy_MinAverage10Latencies = Some PMinAvg10
   /\ policy_of_name go_DialerSelectionPolicy_MinMovingAverageLatencies = Some PMinMovingAvg
-  /\ policy_of_name go_DialerSelectionPolicy_MinLastLatency = Some PMinLast.
+  /\ policy_of_name go_DialerSelectionPolicy_MinLastLatency = Some PMinLast
+  /\ go_group_elem_allocated_in_loop = true.
 
 Lemma consts_tied_proof : consts_tied_statement.
 Proof. unfold consts_tied_statement. repeat split; reflexivity. Qed.
@@ -942,4 +943,85 @@ Proof.
   intros H.
   destruct (H (fun l => Some l) [("alpha", ["a"; "shared"]); ("beta", ["shared"; "b"])]) as [L _].
   vm_compute in L. discriminate.
+Qed.
+
+(* ------------------------------------------------------------------------------------------ *)
+(* groups are decoded independently                                                            *)
+(* ------------------------------------------------------------------------------------------ *)
+Lemma param_parser_spec : forall items to,
+    param_parser to items
+    = mkGroup (g_name to) (g_filter to ++ filters_of items) (g_anno to ++ annos_of items)
+              (fold_left (fun acc it => match it with IPolicy r => Some r | IFilter _ _ => acc end) items (g_policy to)).
+Proof.
+  induction items as [|it rest IH]; intros to.
+  - cbn. rewrite !app_nil_r. destruct to; reflexivity.
+  - destruct it as [l a|r]; cbn [param_parser]; rewrite IH; cbn; rewrite <- ?app_assoc; reflexivity.
+Qed.
+
+Lemma section_parser_spec : forall sections to,
+    section_parser sections to = to ++ map spec_group_decl sections.
+Proof.
+  induction sections as [|[name items] rest IH]; intros to; cbn [section_parser map].
+  - rewrite app_nil_r. reflexivity.
+  - rewrite IH, <- app_assoc. f_equal. cbn [app]. f_equal.
+    rewrite param_parser_spec. reflexivity.
+Qed.
+
+Lemma decode_groups_spec : forall sections, decode_groups sections = map spec_group_decl sections.
+Proof. intros. unfold decode_groups. rewrite section_parser_spec. reflexivity. Qed.
+
+Lemma groups_decoded_independently_proof : forall sections,
+    List.length (decode_groups sections) = List.length sections
+    /\ forall i s, nth_error sections i = Some s ->
+                   nth_error (decode_groups sections) i = nth_error (decode_groups [s]) 0
+                   /\ nth_error (decode_groups sections) i = Some (spec_group_decl s).
+Proof.
+  intros sections. rewrite decode_groups_spec. split; [apply map_length|].
+  intros i s H. rewrite decode_groups_spec. cbn.
+  assert (E : nth_error (map spec_group_decl sections) i = Some (spec_group_decl s))
+    by (apply map_nth_error; exact H).
+  split; exact E.
+Qed.
+
+Lemma filters_annos_aligned : forall items,
+    List.length (filters_of items) = List.length (annos_of items).
+Proof.
+  induction items as [|[l a|r] rest IH]; cbn; [reflexivity | f_equal; exact IH | exact IH].
+Qed.
+
+(* the counter-model: ONE scratch element for all groups, ParamParser clearing Filter/FilterAnnotation
+   on a section's first `filter` item *)
+Fixpoint param_parser_shared (to : group_decl) (filter_set : bool) (items : list group_item) : group_decl :=
+  match items with
+  | [] => to
+  | IFilter l a :: rest =>
+      let f := if filter_set then g_filter to else [] in
+      let an := if filter_set then g_anno to else [] in
+      param_parser_shared (mkGroup (g_name to) (f ++ [l]) (an ++ [a]) (g_policy to)) true rest
+  | IPolicy r :: rest =>
+      param_parser_shared (mkGroup (g_name to) (g_filter to) (g_anno to) (Some r)) filter_set rest
+  end.
+
+Fixpoint section_parser_shared (sections : list (string * list group_item)) (elem : group_decl)
+         (to : list group_decl) : list group_decl :=
+  match sections with
+  | [] => to
+  | (name, items) :: rest =>
+      let elem := param_parser_shared (mkGroup name (g_filter elem) (g_anno elem) (g_policy elem)) false items in
+      section_parser_shared rest elem (to ++ [elem])
+  end.
+
+Definition decode_groups_shared (sections : list (string * list group_item)) : list group_decl :=
+  section_parser_shared sections zero_group [].
+
+Lemma shared_scratch_refuted_proof :
+  ~ (forall sections i s, nth_error sections i = Some s ->
+                          nth_error (decode_groups_shared sections) i = nth_error (decode_groups_shared [s]) 0).
+Proof.
+  intros H.
+  specialize (H [("hk", [IPolicy (PRString "min");
+                         IFilter [mkFunc "name" false [mkParam "keyword" "hk"]] [mkParam "add_latency" "300ms"]]);
+                 ("everything", [IPolicy (PRString "random")])]
+                1 ("everything", [IPolicy (PRString "random")]) eq_refl).
+  vm_compute in H. discriminate.
 Qed.
